@@ -32,6 +32,14 @@ NOT_APPLICABLE = {
     'C02': 'schedule-only property of three unsynchronised steps (id assignment, commit, broadcast) in concurrent writers; neither '
            'Verus (without rewriting the code around its permission types) nor Kani (no threads) can express the quantifier; the '
            'one sequential piece (Excluded(last_id) bound) is decided under C01',
+    'C03': 'not built yet (planned: mechanism obligations on Store::read closures)',
+    'C06': 'not built yet (planned: key lemmas + option maps + handler stamping)',
+    'C10': 'not built yet (planned: hash provenance slices of api.rs)',
+    'C11': 'not built yet (planned: Store::read closures)',
+    'C13': 'not built yet (planned: api.rs slices)',
+    'C14': 'not built yet (planned: handler serve loop)',
+    'C15': 'not built yet (planned: handler stamping loop)',
+    'C17': 'not built yet (planned: replay folds)',
     'C16': 'every decidable clause compares topics against format!() output (opaque to Verus, unaffordable in CBMC) and the rest '
            'is a spawn/subscribe race between tokio tasks',
     'C18': 'generator lifecycle is Nushell-engine evaluation on OS threads plus block_on; no xs function on the path that a '
@@ -45,20 +53,136 @@ def prop(pid, **kw):
     PROPS[pid] = kw
 
 
+
+TECH = ('contract-based deductive verification: Verus requires/ensures/invariants on functions extracted verbatim from /repo '
+        'on every run, ghost store state, spec lemmas')
+STORE_TRUST = ['extraction', 'sequential', 'scru128', 'std_vec', 'be_bytes', 'fjall', 'serde', 'channels', 'registry', 'literal', 'overflow']
+
+prop('C01',
+     level='proof',
+     claim='Unbounded Verus proofs on the real code: iter_frames scans exactly (last_id, +inf) of the primary partition or exactly '
+           '[ctx||last_id excl. / ctx incl., ctx+1) of the context index, looks each entry up by the id in key bytes 16..32 and skips '
+           'dangling entries; the read_sync filter drops exactly the frames is_expired reports and queues Remove for exactly those; '
+           'get reads the key id.to_bytes() and decodes its value; append overwrites the id with a fresh, larger one and stores the '
+           'frame as given. Key lemmas L3/L5/L6 make the bounds exact for every pair of ids / adjacent contexts. For every input and '
+           'store state; storage layouts inside fjall and concurrent writers are assumed / out of scope.',
+     technique=TECH,
+     units=['verus:keys', 'verus:store_ops'],
+     obligations=['keys.ctx_key.*', 'keys.range_end.next_ctx', 'keys.iter_ctx.*', 'keys.iter_all.*',
+                  'store.iter_frames.*', 'store.read_sync.*', 'store.get.*', 'store.append.fresh_id', 'store.append.frame_as_given',
+                  'store.append.stored', 'store.insert_frame.three_entries', 'store.remove.three_tombstones',
+                  'store_ops.Store::iter_frames.body', 'store_ops.Store::get.body', 'store_ops.read_sync_filter.body'],
+     trusted=STORE_TRUST,
+     explanation='Each clause of C01 that is decided by sequential code is a postcondition of the real function (extracted from '
+                 '/repo at run time) discharged by Verus for all inputs; the order filter-then-take of read_sync and the history '
+                 'thread of Store::read are decided by the units listed in coverage when present.',
+     not_decided='fjall storage layouts (memtable flush, journal rotation, reopen); concurrent writers (C02); import (see C20)')
+
+prop('C04',
+     level='other',
+     claim='Mechanism obligations only: insert_frame returns Ok only after exactly one atomic batch holding the three entries followed '
+           'by persist(SyncAll); remove likewise with three tombstones; storage errors are propagated; append acknowledges (and '
+           'broadcasts) only after insert_frame returned Ok. Proved by Verus for every frame; the crash-point quantifier itself '
+           '(torn tails, recovery) lives inside fjall and is assumed.',
+     technique=TECH,
+     units=['verus:store_ops'],
+     obligations=['store.insert_frame.one_batch_then_sync', 'store.insert_frame.three_entries', 'store.insert_frame.errors_propagated',
+                  'store.remove.one_batch_then_sync', 'store.remove.three_tombstones', 'store.remove.nothing_else_touched',
+                  'store.remove.errors_propagated', 'store.append.store_then_broadcast', 'store.append.no_broadcast_on_err',
+                  'store_ops.Store::insert_frame.body', 'store_ops.Store::remove.body'],
+     trusted=STORE_TRUST,
+     explanation='Effect shape and order of the real insert_frame / remove / append against contract stubs of fjall (batch, commit, '
+                 'persist) with a ghost event log; every write outside the one batch, a downgraded or missing persist, or a swallowed '
+                 'error breaks a named postcondition.',
+     not_decided='crash instants, torn writes and recovery (inside fjall/lsm-tree); CAS durability (cacache)')
+
 prop('C05',
      level='proof',
-     claim='Unbounded proof (Verus) that the five key functions implement the ctx||topic||0x00||id layout for every topic byte '
-           'string and 128-bit id, that the layout makes head/scan bounds exact (prefix-related topics, adjacent contexts), and that '
-           'get / insert_frame / remove / append write, read and delete exactly the three entries of a frame (NUL topics rejected '
-           'without a trace). Holds for every input and every store state; interleavings and fjall internals are assumed.',
-     technique='contract-based deductive verification: Verus requires/ensures on functions extracted verbatim from /repo, ghost '
-               'store state, spec lemmas',
+     claim='Unbounded Verus proofs that the five key functions implement the ctx||topic||0x00||id layout for every topic byte string '
+           'and 128-bit id (NUL rejected iff present), that head scans exactly that prefix newest-first and returns the first entry '
+           'whose frame exists with the id taken from the last 16 key bytes, and that get / insert_frame / remove / append read, '
+           'write and delete exactly the three entries of a frame; lemmas L1-L6 make prefix and range scans exact for prefix-related '
+           'topics and adjacent contexts.',
+     technique=TECH,
      units=['verus:keys', 'verus:store_ops'],
      obligations=['keys.prefix.*', 'keys.from_frame.*', 'keys.id_from_key.*', 'keys.ctx_key.*', 'keys.range_end.*',
-                  'keys.iter_ctx.*', 'keys.iter_all.*', 'keys.*.body',
+                  'keys.iter_ctx.*', 'keys.iter_all.*', 'keys.*.body', 'store.head.*', 'store.iter_frames.*',
                   'store.get.*', 'store.insert_frame.three_entries', 'store.insert_frame.nul_*', 'store.remove.three_tombstones',
-                  'store.remove.absent_noop', 'store.append.reject*', 'store.append.stored', 'store_ops.*.body'],
-     trusted=['extraction', 'sequential', 'scru128', 'std_vec', 'be_bytes', 'fjall', 'serde', 'literal', 'overflow'],
+                  'store.remove.absent_noop', 'store.remove.nothing_else_touched', 'store.append.reject*', 'store.append.stored',
+                  'store_ops.Store::*.body'],
+     trusted=STORE_TRUST,
      explanation='Contracts on the real key functions and store methods, discharged by Verus for every topic byte string, '
                  'context id and store state; lemmas L1-L6 turn the key layout into the statements of C05.',
-     not_decided='storage layouts inside fjall; concurrent writers (C02)')
+     not_decided='storage layouts inside fjall; concurrent writers (C02); import (C20)')
+
+prop('C07',
+     level='proof',
+     claim='Unbounded Verus proofs on the real Store::append / remove / reload loop of Store::new: an append is Ok only into the zero '
+           'context or a registered one (else Err with no stored entry, no registry change, no event), xs.context only in the zero '
+           'context with its ttl forced to Forever and its id registered, remove of an xs.context frame unregisters it, and after '
+           'open the registry is exactly the ids of the xs.context frames the zero-context read returns.',
+     technique=TECH,
+     units=['verus:store_ops'],
+     obligations=['store.append.rejects_invalid', 'store.append.reject_no_trace', 'store.append.registers', 'store.append.frame_as_given',
+                  'store.append.no_broadcast_on_err', 'store.remove.unregisters', 'store.new.*',
+                  'store_ops.Store::append.body', 'store_ops.new_reload_loop.body'],
+     trusted=STORE_TRUST,
+     explanation='Postconditions of the real functions over the ghost registry set.',
+     not_decided='reopen after a crash (fjall recovery); import of registration frames bypasses the registry (C20 finding)')
+
+prop('C08',
+     level='proof',
+     claim='Unbounded Verus proofs: is_expired answers true iff the clock reading is >= id timestamp + ttl in milliseconds '
+           '(saturating, never early); Remove is queued only for a frame is_expired reported; the head:N collector scans exactly the '
+           'prefix ctx||topic||0x00, spares the newest N entries and removes only frames whose index entry lies beyond them; append '
+           'queues CheckHeadTTL only for a stored head:N frame with that context, topic and N; remove deletes only the three entries '
+           'of the frame it read.',
+     technique=TECH,
+     units=['verus:expiry', 'verus:store_ops', 'verus:keys'],
+     obligations=['expiry.is_expired.*', 'expiry.is_expired.body', 'store.read_sync.*', 'store.gc_head.*', 'store.append.store_then_broadcast',
+                  'store.append.ephemeral_not_stored', 'store.remove.three_tombstones', 'store.remove.nothing_else_touched',
+                  'keys.prefix.layout', 'keys.from_frame.layout', 'keys.id_from_key.last16',
+                  'store_ops.gc_head_arm.body', 'store_ops.read_sync_filter.body'],
+     trusted=STORE_TRUST + ['duration'],
+     explanation='Arithmetic of is_expired for every (id, ttl, clock) triple; effect contracts of the lazy-expiry filter and the '
+                 'head:N collector arm over the ghost store.',
+     not_decided='interleaving of reads with GC drains (one worker thread); the expiry filter in the history thread of Store::read '
+                 'is covered by the read unit when present')
+
+prop('C09',
+     level='proof',
+     claim='Unbounded Verus proofs: an Ephemeral frame is broadcast exactly once and nothing is stored; is_expired is exact in '
+           'milliseconds so a time:N frame is filtered from a read once N ms have passed and a Remove is queued for it; after the '
+           'head:N collector arm ran without storage errors no frame beyond the newest N entries of exactly that (context, topic) '
+           'prefix remains.',
+     technique=TECH,
+     units=['verus:expiry', 'verus:store_ops'],
+     obligations=['store.append.ephemeral_not_stored', 'store.append.stored', 'expiry.is_expired.*', 'store.read_sync.*', 'store.gc_head.*',
+                  'store.remove.three_tombstones', 'store.remove.errors_propagated', 'store_ops.gc_head_arm.body'],
+     trusted=STORE_TRUST + ['duration'],
+     explanation='See C08; plus the ephemeral branch of append and the eviction direction of the collector arm.',
+     not_decided='"after the collector has drained" as a schedule statement; reopen; parse_ttl text (head:0 rejection) is bounded, see C12')
+
+prop('C12',
+     level='proof',
+     claim='Numeric payload only (proof): the TTL serializers print duration.as_millis(), parse_ttl / the follow-option parser build '
+           'Duration::from_millis of the parsed number, so every ms-granular TTL/heartbeat round-trips and every parsed duration '
+           'satisfies is_expired\'s precondition. The text grammar is checked by the bounded Kani units when present.',
+     technique=TECH,
+     units=['verus:expiry'],
+     obligations=['expiry.ttl.*', 'expiry.follow.*', 'expiry.ttl_*.body', 'expiry.parse_ttl_time_ctor.body', 'expiry.follow_*.body'],
+     trusted=['extraction', 'duration', 'overflow'],
+     explanation='Slices: the argument expressions of the serializer format!s and the constructor expressions of the parsers.',
+     not_decided='Frame/meta JSON via serde, serde_urlencoded, nu value conversion; symbolic text round trip')
+
+prop('C20',
+     level='proof',
+     claim='Call-site obligations: insert_frame (the import path) stores the frame as is under its own id with one batch + SyncAll and '
+           'emits no broadcast / GC task; its preconditions for keeping the indexes in lock-step (P1-P4) are stated and the import '
+           'call site is checked against them (known findings).',
+     technique=TECH,
+     units=['verus:store_ops'],
+     obligations=['store.insert_frame.*', 'store_ops.Store::insert_frame.body'],
+     trusted=STORE_TRUST,
+     explanation='insert_frame contract; import call-site slice when present.',
+     not_decided='content import (cacache); order permutations beyond idempotence and id-keyed placement')
